@@ -153,6 +153,7 @@ def to_tail(stmts, budget=None):
 class Helper:
     def __init__(self, fn, cls=None, static=False):
         self.fn, self.cls, self.static = fn, cls, static
+        self.clsm = False
         self.name = fn.name
         a = fn.args
         self.params = [x.arg for x in a.posonlyargs + a.args]
@@ -186,8 +187,11 @@ class Helper:
 
 def _candidate(fn, cls):
     static = False
+    clsm = False
     if cls is not None and len(fn.decorator_list) == 1 and isinstance(fn.decorator_list[0], ast.Name) and fn.decorator_list[0].id == "staticmethod":
         static = True
+    elif cls is not None and len(fn.decorator_list) == 1 and isinstance(fn.decorator_list[0], ast.Name) and fn.decorator_list[0].id == "classmethod":
+        clsm = True
     elif fn.decorator_list or isinstance(fn, ast.AsyncFunctionDef):
         return None
     a = fn.args
@@ -215,6 +219,7 @@ def _candidate(fn, cls):
         h = Helper(fn, cls, static)
     except _NoTail:
         return None
+    h.clsm = clsm
     if h.vararg:
         # the * parameter may only be forwarded as *name
         for n in ast.walk(ast.Module(body=h.tail, type_ignores=[])):
@@ -271,7 +276,11 @@ class Inliner:
         if isinstance(f, ast.Name) and f.id in self.helpers and f.id not in local_names:
             return self.helpers[f.id]
         if isinstance(f, ast.Attribute) and isinstance(f.value, ast.Name) and f.value.id == "self" and cls_name is not None \
-                and (cls_name, f.attr) in self.methods:
+                and (cls_name, f.attr) in self.methods and not self.methods[(cls_name, f.attr)].clsm:
+            return self.methods[(cls_name, f.attr)]
+        if isinstance(f, ast.Attribute) and isinstance(f.value, ast.Name) and f.value.id == "cls" and cls_name is not None \
+                and (cls_name, f.attr) in self.methods and self.methods[(cls_name, f.attr)].clsm and "cls" in local_names:
+            # cls.helper(...) from a classmethod of the same class: the helper's cls is the caller's cls
             return self.methods[(cls_name, f.attr)]
         if isinstance(f, ast.Attribute) and isinstance(f.value, ast.Name) and (f.value.id, f.attr) in self.methods \
                 and self.methods[(f.value.id, f.attr)].static and f.value.id not in local_names:
@@ -335,8 +344,10 @@ class Inliner:
                 pre.append(ast.Assign(targets=[ast.Name(id=tmp, ctx=ast.Store())], value=_clone(a)))
                 vv.append(ast.Name(id=tmp, ctx=ast.Load()))
         rename = {l: tag + l for l in h.locals}
-        if h.self_name and h.self_name != "self":
+        if h.self_name and h.self_name != "self" and not h.clsm:
             mapping[h.self_name] = ast.Name(id="self", ctx=ast.Load())
+        if h.clsm and h.self_name and h.self_name != "cls":
+            mapping[h.self_name] = ast.Name(id="cls", ctx=ast.Load())
         return _Subst(mapping, rename, h.vararg, vv)
 
     def _expr_order_ok(self, h, impure_params):
